@@ -5,7 +5,7 @@ Model (what the Cython extraction keeps / drops is stated in vcgen/fe_cython.py)
   positions : unordered_map[item_type, int]                ->  DICT(INT, INT)
   Score     : the target of a priority_type_ptr, an immutable vector<int> (field data); pointer identity/ownership dropped
 Order: LOWER(a, b) is an abstract strict weak order on scores (irreflexive, transitive, negatively transitive).  That the lexicographic
-order computed by _vector_score_lower IS such an order is the Mathlib fact recorded in lemmas/LexOrder.lean (trusted here); the function
+order computed by _vector_score_lower IS such an order is discharged by the lemma group L#lexicographic-order-is-a-strict-weak-order at the end of this file; the function
 itself is verified against the lexicographic definition LEX and against LOWER under the definitional instance LOWER(a,b) == LEX(a,b).
 
 Abstract view V = {it(i) -> sc(i) | i < n}.  WF: positions[it(i)] == i, dom(positions) == items, heap order not LOWER(sc(par i), sc(i)).
@@ -269,3 +269,51 @@ def canary_pop_returns_minimum():
 
 
 R.canaries.append(("priorityqueue.pyx:canary#sift_up-without-grandparent-condition", canary_pop_returns_minimum))
+
+
+# ------------------------------------------------------------------------------------------------ the lexicographic order IS a strict weak order (lemmas)
+def lemma_lex_is_strict_weak_order():
+    """LEX (lexicographic with 'proper prefix is smaller') over integer vectors of any lengths is irreflexive, transitive and negatively transitive.
+    Irreflexivity and transitivity are discharged directly.  Negative transitivity goes through trichotomy (a < b or b < a or a == b), whose proof needs the
+    existence of a first differing index: P(n) := 'the vectors agree below n, or have a first difference below n' is shown for 0 (base) and from n to n+1
+    (step); the induction principle that gives P(min length) is meta-level, like for the heap-root lemma.  From P(min length): trichotomy; from trichotomy,
+    the transitivity instance b<a<c => b<c and congruence (a == b and a < c => b < c): negative transitivity."""
+    A = z3.ArraySort(z3.IntSort(), z3.IntSort())
+
+    def pe(a, b, upto, tag):
+        j = z3.Int("lexj_" + tag)
+        return z3.ForAll([j], z3.Implies(z3.And(0 <= j, j < upto), a[j] == b[j]))
+
+    def lex(a, la, b, lb, tag):
+        k = z3.Int("lexk_" + tag)
+        m = z3.If(la < lb, la, lb)
+        return z3.Or(z3.Exists([k], z3.And(0 <= k, k < m, pe(a, b, k, tag + "p"), a[k] < b[k])), z3.And(pe(a, b, m, tag + "q"), la < lb))
+
+    def fd(a, b, n, tag):
+        k = z3.Int("lexfd_" + tag)
+        return z3.Exists([k], z3.And(0 <= k, k < n, pe(a, b, k, tag + "p"), a[k] != b[k]))
+
+    def P(a, b, n, tag):
+        return z3.Or(pe(a, b, n, tag + "e"), fd(a, b, n, tag))
+
+    def EQ(a, la, b, lb, tag):
+        return z3.And(la == lb, pe(a, b, la, tag))
+    a, b, c = z3.Consts("lex_a lex_b lex_c", A)
+    la, lb, lc, n = z3.Ints("lex_la lex_lb lex_lc lex_n")
+    m = z3.If(la < lb, la, lb)
+    hyp = [la >= 0, lb >= 0, lc >= 0]
+    x1, x2, x3, x4, e = lex(a, la, b, lb, "n1"), lex(b, lb, c, lc, "n2"), lex(a, la, c, lc, "n3"), lex(b, lb, a, la, "n4"), EQ(a, la, b, lb, "n5")
+    goals = {
+        "irreflexive": z3.Not(lex(a, la, a, la, "i")),
+        "transitive": z3.Implies(z3.And(lex(a, la, b, lb, "t1"), lex(b, lb, c, lc, "t2")), lex(a, la, c, lc, "t3")),
+        "first-difference-base": P(a, b, z3.IntVal(0), "b"),
+        "first-difference-step": z3.Implies(z3.And(n >= 0, n < m, P(a, b, n, "s1")), P(a, b, n + 1, "s2")),
+        "trichotomy-from-first-difference": z3.Implies(P(a, b, m, "tr"), z3.Or(lex(a, la, b, lb, "tr1"), lex(b, lb, a, la, "tr2"), EQ(a, la, b, lb, "tr3"))),
+        "congruence": z3.Implies(z3.And(EQ(a, la, b, lb, "c1"), lex(a, la, c, lc, "c2")), lex(b, lb, c, lc, "c3")),
+        "negatively-transitive-from-trichotomy-transitivity-congruence":
+            z3.Implies(z3.And(z3.Or(x1, x4, e), z3.Implies(z3.And(x4, x3), x2), z3.Implies(z3.And(e, x3), x2), z3.Not(x1), z3.Not(x2)), z3.Not(x3)),
+    }
+    return hyp, goals
+
+
+R.lemmas.append(("priorityqueue.pyx:L#lexicographic-order-is-a-strict-weak-order", P, lemma_lex_is_strict_weak_order))
